@@ -7,7 +7,6 @@ import sys
 import warnings
 from collections import abc
 from dataclasses import MISSING, Field
-from dataclasses import astuple as _get_arguments
 from dataclasses import dataclass as _create_dataclass
 from dataclasses import field as _create_field
 from dataclasses import fields as _get_fields
@@ -39,6 +38,15 @@ if TYPE_CHECKING:
     T = TypeVar("T")
 
 ExprClass = TypeVar("ExprClass", bound=sp.Expr)
+
+
+def _get_arguments(instance) -> tuple:
+    """Get the values of all dataclass fields, without recursing into them.
+
+    Unlike :func:`dataclasses.astuple`, arguments that are themselves (unevaluated)
+    dataclass expressions are returned as they are.
+    """
+    return tuple(getattr(instance, field.name) for field in _get_fields(instance))
 
 
 class SymPyAssumptions(TypedDict, total=False):
